@@ -128,6 +128,7 @@ func init() {
 			runSt := ir.Dispatcher
 			c.CallOrder(ob2, "order:RunProgram:statements-after-fetch", run, func(f *ssa.Function) bool { return f == fetch }, func(f *ssa.Function) bool { return f == runSt }, "statements run only after the balances were fetched")
 			obCacheMergeOnly(c, "C10.3")
+			obBatchAlways(c, "C10.4b")
 			obWorldNeverQueried(c, "C10.4")
 			ob5 := c.R.Ob("C10.5", "ctrl/default-read", "balance maps are only read with the comma-ok form: an absent entry goes through the zero default, it is never dereferenced", 1)
 			c.LookupsCommaOk(ob5, relInterp, isBalanceMap)
